@@ -1,15 +1,20 @@
 """Bounded stand-in / replay vehicle for C14 on the REAL elfi classes (labelled bounded; never counted as proof).
 
-Bound: seeded random edit sequences of <= 5 (quick) / <= 6 (thorough) steps over two small base models (a hierarchical prior pair,
-a simulator with observed data, summary, distance; private constants come from the literal arguments), steps drawn from
+Bound: fixed histories + seeded random edit sequences of <= 5 (quick) / <= 6 (thorough) steps over three small base models
+(0: hierarchical prior pair, simulator with observed data, summary, distance; 1: one prior, simulator with data; 2: two priors,
+simulator WITHOUT observed data, so the observed dict is empty when the model is copied); private constants come from literal
+arguments.  Steps:
   add (Operation / Prior on an existing scalar node + a literal constant), become (replace a Prior / Operation by a fresh node that
-  does not depend on it), remove (a leaf; 'remove_any': any user node), setparams (parameter_names setter), copy (+ a mutation of
-  the copy), saveload (pickle round trip).
+  does not depend on it), prep + become_pending (prepare a replacement with TWO positional parents, replace a node by it later -
+  a become of its first parent in between makes its predecessor insertion order differ from its positional order), remove (a leaf;
+  'remove_any': any user node), setparams (parameter_names setter), copy (+ an edit of the copy, or of the ORIGINAL: both
+  directions of independence), saveload (pickle round trip).
 After EVERY step: model_ok (positional params of each child pairwise distinct, no isolated private node, observed keys are nodes,
 parameter_names sorted and exact, acyclic, get_parents = positional parents by ascending param), the become / remove_node posts of
-the property, and for copy / saveload: equal views, equal seeded generate() output, and independence (mutating the copy through
-parameter_names / observed / remove_node / become leaves the original's view - including the contents of every state dict -
-unchanged).  Models never need elfi.Rejection."""
+the property (parents WITH their params, seeded output of the replaced node = its operation on its positional parents), and for
+copy / saveload: equal views, equal seeded generate() output, and independence (editing one of original / copy through
+parameter_names / observed / remove_node / become-with-data leaves the other's view - including the contents of every state
+dict and the observed dict - unchanged).  Models never need elfi.Rejection."""
 import os
 import random
 import shutil
@@ -41,9 +46,18 @@ def add_const(x, c):
     return x + c
 
 
+def sub2(x, y):
+    return x - 2.0 * y
+
+
 def base_model(elfi, variant):
     m = elfi.ElfiModel(name='c14base%d' % variant)
     a = elfi.Prior('uniform', 0, 2, model=m, name='a')
+    if variant == 2:
+        elfi.Prior('uniform', 1, 2, model=m, name='b')
+        s = elfi.Simulator(sim, m['a'], m['b'], model=m, name='s')
+        elfi.Summary(mean, s, model=m, name='S')
+        return m, ['a', 'b']
     if variant == 0:
         b = elfi.Prior('normal', a, 1, model=m, name='b')
         s = elfi.Simulator(sim, a, b, observed=np.zeros((1, 3)), model=m, name='s')
@@ -149,8 +163,9 @@ def apply_mutator(elfi, k, j, st):
         return 'remove_node(%r)' % leaves[-1]
     tgt = sc[-1]
     new = elfi.Prior('normal', 0.25, 1.0, model=k, name='rep%d' % st['uid'])
+    k.observed[new.name] = np.full((1, 1), 3.0)
     k[tgt].become(new)
-    return '%s.become(Prior)' % tgt
+    return '%s.become(Prior carrying observed data)' % tgt
 
 
 def step(elfi, m, op, st, check_independence=True, tmp=None):
@@ -213,6 +228,52 @@ def step(elfi, m, op, st, check_independence=True, tmp=None):
         for u in old_private:
             if u in G.nodes:
                 raise Fail('c14:become', 'become(%s): sole private constant %s of the replaced node left behind' % (tgt, u))
+    elif kind == 'prep':
+        # prepare a replacement with two positional parents (used by a later 'become_pending'); a 'become' of its FIRST parent in
+        # between re-inserts that parent's out-edges, so the predecessor insertion order of the replacement differs from its positional order
+        if not scal or st.get('pending') in G.nodes:
+            return m
+        pa = scal[i % len(scal)]
+        pb = scal[(i + 1) % len(scal)]
+        name = 'p%d' % uid
+        elfi.Operation(sub2, m[pa], m[pb] if pb != pa else 3.0, model=m, name=name)
+        st['pending'] = name
+        st['scal'].append(name)
+    elif kind == 'become_pending':
+        import networkx as nx
+        pend = st.get('pending')
+        if pend not in G.nodes:
+            return m
+        cands = [n for n in scal if n != pend and G.nodes[n]['attr_dict']['_class'] is elfi.Operation
+                 and pend not in nx.descendants(G, n) and n not in nx.ancestors(G, pend)]
+        if not cands:
+            return m
+        tgt = cands[i % len(cands)]
+        kids = sorted((w, repr(d['param'])) for _, w, d in G.out_edges(tgt, data=True))
+        ins = sorted((u, repr(d['param'])) for u, _, d in G.in_edges(pend, data=True))
+        want_parents = [u for _, u in sorted((d['param'], u) for u, _, d in G.in_edges(pend, data=True) if isinstance(d['param'], int))]
+        state = G.nodes[pend]['attr_dict']
+        m[tgt].become(m[pend])
+        G = m.source_net
+        st['pending'] = None
+        st['scal'] = [n for n in st['scal'] if n in G.nodes]
+        if pend in G.nodes:
+            raise Fail('c14:become', 'become(%s <- %s): the replacement node is still in the model' % (tgt, pend))
+        if sorted((w, repr(d['param'])) for _, w, d in G.out_edges(tgt, data=True)) != kids:
+            raise Fail('c14:become', 'become(%s <- %s): children not kept: had %s' % (tgt, pend, kids))
+        got = sorted((u, repr(d['param'])) for u, _, d in G.in_edges(tgt, data=True))
+        if got != ins:
+            raise Fail('c14:become', "become(%s <- %s): parents with params are %s, the replacement had %s" % (tgt, pend, got, ins))
+        if list(m.get_parents(tgt)) != want_parents:
+            raise Fail('c14:become', "become(%s <- %s): positional parents %s, the replacement had %s" % (tgt, pend, list(m.get_parents(tgt)), want_parents))
+        if G.nodes[tgt]['attr_dict'] is not state:
+            raise Fail('c14:become', "become(%s <- %s): state is not the replacement's state" % (tgt, pend))
+        out = gen(m, 23 + i)
+        if out is not None and len(want_parents) == 2 and all(p in out for p in want_parents):
+            want = sub2(np.asarray(out[want_parents[0]]), np.asarray(out[want_parents[1]]))
+            st['nontrivial'] += 1
+            if not np.allclose(np.asarray(out[tgt]), want):
+                raise Fail('c14:become-generate', 'become(%s <- %s): seeded output is not sub2(%s, %s) of the same run' % (tgt, pend, want_parents[0], want_parents[1]))
     elif kind in ('remove', 'remove_any'):
         cands = [n for n in un if G.out_degree(n) == 0] if kind == 'remove' else un
         if len(un) <= 1 or not cands:
@@ -255,13 +316,21 @@ def step(elfi, m, op, st, check_independence=True, tmp=None):
             raise Fail('c14:copy-generate', 'copy generates different seeded outputs')
         st['nontrivial'] += g0 is not None
         st['gens'] = st.get('gens', 0) + (g0 is not None)
-        if check_independence:
+        if check_independence and (i // 8) % 2:
+            # the reverse direction: edit the ORIGINAL, the copy must keep its view
+            snap = view(k)
+            what = apply_mutator(elfi, m, i, st)
+            st['scal'] = [n for n in st['scal'] if n in m.source_net.nodes]
+            if view(k) != snap:
+                raise Fail(INDEP, 'k = m.copy(); m.%s changed the copy k' % what)
+        elif check_independence:
             snap = view(m)
             what = apply_mutator(elfi, k, i, st)
             if view(m) != snap:
                 raise Fail(INDEP, 'k = m.copy(); k.%s changed the original m' % what)
             if (i // 4) % 2:
                 st['scal'] = [n for n in st['scal'] if n in k.source_net.nodes]
+                st['pending'] = st.get('pending') if st.get('pending') in k.source_net.nodes else None
                 return k
     elif kind == 'saveload':
         g0 = gen(m, 5 + i)
@@ -278,8 +347,8 @@ def step(elfi, m, op, st, check_independence=True, tmp=None):
     return m
 
 
-KINDS = ['add_op', 'add_prior', 'become', 'remove', 'remove_any', 'setparams', 'copy', 'saveload']
-WEIGHTS = [3, 3, 4, 3, 1, 2, 4, 2]
+KINDS = ['add_op', 'add_prior', 'become', 'remove', 'remove_any', 'setparams', 'copy', 'saveload', 'prep', 'become_pending']
+WEIGHTS = [3, 3, 4, 3, 1, 2, 4, 2, 2, 2]
 
 
 def run_sequence(elfi, variant, ops, check_independence=True, tmp=None):
@@ -326,10 +395,14 @@ def sequences(tier, seed):
     n = 36 if tier == 'quick' else 260
     fixed = [[('copy', j)] for j in range(4)] + [[('become', 0), ('copy', 3)], [('add_op', 1), ('remove', 0), ('saveload', 0)],
                                                  [('setparams', 1), ('copy', 0), ('saveload', 1)], [('become', 1), ('become', 0), ('remove_any', 1)]]
-    out = [(v, ops) for v in (0, 1) for ops in fixed]
+    # histories named by the property's soft spots: a replacement whose predecessor insertion order differs from its positional
+    # order (its first parent was itself replaced in between); copies of a model WITHOUT observed data (variant 2), edited both ways
+    fixed += [[('add_op', 0), ('prep', 0), ('become', 0), ('become_pending', 0)], [('add_op', 1), ('prep', 1), ('become', 1), ('become_pending', 0), ('copy', 0)],
+              [('copy', 1)], [('copy', 3)], [('copy', 9)], [('copy', 11)], [('copy', 5), ('copy', 1)]]
+    out = [(v, ops) for v in (0, 1, 2) for ops in fixed]
     for _ in range(n):
         ops = [(rnd.choices(KINDS, WEIGHTS)[0], rnd.randrange(0, 64)) for _ in range(rnd.randint(2, L))]
-        out.append((rnd.randrange(2), ops))
+        out.append((rnd.randrange(3), ops))
     return out, L
 
 
@@ -362,8 +435,8 @@ def run(tier='quick', seed=0, first_failure_only=True, check_independence=True, 
 def independence_probe(prefer=0):
     """the direct F2 probe: -> failing input or None"""
     elfi = native.import_elfi()
-    for j in [prefer] + [x for x in range(4) if x != prefer]:
-        for v in (0, 1):
+    for j in [prefer] + [x for x in (0, 1, 2, 3, 9, 11) if x != prefer]:
+        for v in (0, 1, 2):
             r = run_sequence(elfi, v, [('copy', j)])
             if r['signature'] == INDEP:
                 return dict(variant=v, ops=[['copy', j]], check_independence=True), r['what']
